@@ -54,7 +54,7 @@ class TransactionContextDecorator:
     def __init__(self, mode: TransactionMode | None = None, timeout: float | None = None):
         self._mode = mode
         self._timeout = timeout
-        self._inner = False
+        self._inner = 0  # how deep this object is entered inside an already running transaction
         self._return_token: Token | None = None
 
     @property
@@ -63,7 +63,7 @@ class TransactionContextDecorator:
 
     async def __aenter__(self) -> Transaction:
         if self.current_tx:
-            self._inner = True
+            self._inner += 1
             return self.current_tx
         return self.start()
 
@@ -77,7 +77,7 @@ class TransactionContextDecorator:
 
     async def __aexit__(self, exc_type, exc_value, exc_tb) -> None:
         if not self.current_tx or self._inner:
-            self._inner = False
+            self._inner = max(self._inner - 1, 0)
             return
         try:
             if not exc_tb:
